@@ -10,7 +10,8 @@ from .. import sweeps as S
 def run(ctx):
     rnd = random.Random(ctx.seed)
     q = ctx.quick
-    ctx.mc('MC_Decode', constants={'MODES': '{19}' if q else '{16, 19}'}, coverage=False)
+    ctx.mc('MC_Decode', constants={'MODES': '{19}' if q else '{16, 19}', 'T16ALL': 'FALSE' if q else 'TRUE'}, coverage=False,
+           timeout=3000)
     ctx.mc('MC_Cond', workers=4)
     # ---- all 2^16 halfwords as the first halfword of an instruction: 16-bit encodings judged (exactly where specified),
     #      32-bit prefixes (top five bits 11101 / 11110 / 11111) consume a random second halfword
